@@ -125,7 +125,7 @@ theorem run_reg_sro (s : St R) (ops : List (Op R)) :
       · simp only [step]; split <;> simp [h1]
       · simp only [step]; split <;> simp [h2]
 
-#print axioms inv_step
-#print axioms lookup_transparent
-#print axioms run_reg_sro
+
+
+
 end ZI.Cache
